@@ -23,15 +23,11 @@ the URL parses to an http(s) URL whose host is one of the four hosts, on the def
 def LandsOnHail (cfg : DeployCfg) (base s : Str) : Prop :=
   ∃ sch h, browserDest base s = .host sch h none ∧ (sch = sHttps ∨ sch = sHttp) ∧ h ∈ hailHosts cfg
 
-/-- THE PROPERTY AT FULL STRENGTH.  It does **not** hold for the code as it is: see `accepted_lands_on_hail_fails`. -/
-def AcceptedLandsOnHail : Prop :=
-  ∀ (cfg : DeployCfg) (base s : Str), plainCfg cfg = true → validate cfg s = .accept → LandsOnHail cfg base s
-
-/-- The exact acceptance condition of `validate_next_page_url` for a plain deploy config: the string is non-empty and
-CPython's netloc of it is, verbatim, one of the four service hosts. -/
-theorem accept_iff (cfg : DeployCfg) (hcfg : plainCfg cfg = true) (s : Str) :
-    validate cfg s = .accept ↔ s ≠ [] ∧ ∃ h ∈ hailHosts cfg, pyNetloc s = .ok h := by
-  unfold validate
+/-- The exact acceptance condition of the validator BEFORE the fix (`validateOld`) for a plain deploy config: the string is
+non-empty and CPython's netloc of it is, verbatim, one of the four service hosts. -/
+theorem acceptOld_iff (cfg : DeployCfg) (hcfg : plainCfg cfg = true) (s : Str) :
+    validateOld cfg s = .accept ↔ s ≠ [] ∧ ∃ h ∈ hailHosts cfg, pyNetloc s = .ok h := by
+  unfold validateOld
   rw [validNextDomains_plain cfg hcfg]
   have hne : ((hailHosts cfg).map PyNetloc.ok).any (· == .exotic) = false := by
     rw [List.any_eq_false]; intro x hx
@@ -52,13 +48,37 @@ theorem accept_iff (cfg : DeployCfg) (hcfg : plainCfg cfg = true) (s : Str) :
       · rintro ⟨h, hm, rfl⟩
         simp [hm]
 
-/-- Without any hypothesis on the scheme: an accepted URL either lands on a Hail host, or it has a scheme other than
-http/https (which the transcription treats as "redirect refused": the browser loads nothing). -/
-theorem accepted_lands_or_not_http (cfg : DeployCfg) (base s : Str) (hcfg : plainCfg cfg = true)
-    (hacc : validate cfg s = .accept) :
+/-- The current validator accepts exactly what the old one accepted, minus everything whose CPython scheme is not http/https. -/
+theorem accept_iff_old (cfg : DeployCfg) (s : Str) :
+    validate cfg s = .accept ↔ validateOld cfg s = .accept ∧ schemeIsHttp s = true := by
+  unfold validate validateOld
+  by_cases hs : s = []
+  · simp [hs]
+  · simp only [hs, ↓reduceIte]
+    split
+    · simp
+    · cases pyNetloc s with
+      | exotic => simp
+      | ok n =>
+        simp only
+        by_cases h1 : schemeIsHttp s = true <;> by_cases h2 : ((validNextDomains cfg).contains (.ok n)) = true <;> simp [h1, h2]
+
+/-- The exact acceptance condition of `validate_next_page_url` (current code) for a plain deploy config. -/
+theorem accept_iff (cfg : DeployCfg) (hcfg : plainCfg cfg = true) (s : Str) :
+    validate cfg s = .accept ↔
+      s ≠ [] ∧ (pyScheme s = some sHttp ∨ pyScheme s = some sHttps) ∧ ∃ h ∈ hailHosts cfg, pyNetloc s = .ok h := by
+  rw [accept_iff_old, acceptOld_iff cfg hcfg]
+  simp only [schemeIsHttp, Bool.or_eq_true, beq_iff_eq]
+  constructor
+  · rintro ⟨⟨h1, h2⟩, h3⟩; exact ⟨h1, h3, h2⟩
+  · rintro ⟨h1, h3, h2⟩; exact ⟨⟨h1, h2⟩, h3⟩
+
+/-- What the old validator guaranteed: an accepted URL either lands on a Hail host, or it has a scheme other than http/https. -/
+theorem old_accepted_lands_or_not_http (cfg : DeployCfg) (base s : Str) (hcfg : plainCfg cfg = true)
+    (hacc : validateOld cfg s = .accept) :
     LandsOnHail cfg base s ∨
       ∃ sch, pyScheme s = some sch ∧ sch ≠ sHttps ∧ sch ≠ sHttp ∧ browserDest base s = .blocked sch := by
-  obtain ⟨_, h, hm, hn⟩ := (accept_iff cfg hcfg s).1 hacc
+  obtain ⟨_, h, hm, hn⟩ := (acceptOld_iff cfg hcfg s).1 hacc
   have hp : plainHost h = true := by
     have := hcfg
     unfold plainCfg at this
@@ -69,39 +89,36 @@ theorem accepted_lands_or_not_http (cfg : DeployCfg) (base s : Str) (hcfg : plai
   · exact Or.inl ⟨sch, h, hd, hs, hm⟩
   · exact Or.inr ⟨sch, hsch, h1, h2, hd⟩
 
-/-- PARTIAL (explicit hypothesis on the scheme, forced by the proof): if CPython sees no scheme, `http` or `https`, an
-accepted URL lands on a Hail host.  What is missing for the full statement is exactly a scheme check in the validator. -/
-theorem accepted_lands_on_hail_partial (cfg : DeployCfg) (base s : Str) (hcfg : plainCfg cfg = true)
-    (hacc : validate cfg s = .accept)
-    (hscheme : pyScheme s = none ∨ pyScheme s = some sHttp ∨ pyScheme s = some sHttps) :
-    LandsOnHail cfg base s := by
-  rcases accepted_lands_or_not_http cfg base s hcfg hacc with h | ⟨sch, hs, h1, h2, _⟩
+/-- THE PROPERTY AT FULL STRENGTH, for the current code: whenever `validate_next_page_url` accepts a string, the browser that
+follows it lands on one of the four Hail hosts (http or https, default port). -/
+theorem accepted_lands_on_hail (cfg : DeployCfg) (base s : Str) (hcfg : plainCfg cfg = true)
+    (hacc : validate cfg s = .accept) : LandsOnHail cfg base s := by
+  obtain ⟨hold, hsch⟩ := (accept_iff_old cfg s).1 hacc
+  rcases old_accepted_lands_or_not_http cfg base s hcfg hold with h | ⟨sch, hs, h1, h2, _⟩
   · exact h
-  · rw [hs] at hscheme
-    rcases hscheme with h | h | h
-    · exact absurd h (by simp)
+  · simp only [schemeIsHttp, Bool.or_eq_true, beq_iff_eq] at hsch
+    rw [hs] at hsch
+    rcases hsch with h | h
     · exact absurd (Option.some.inj h) h2
     · exact absurd (Option.some.inj h) h1
+
+/-! ## the repaired defect (validator before commit 46b6e6f3a) -/
+
+/-- the full statement for the OLD validator -/
+def AcceptedLandsOnHailOld : Prop :=
+  ∀ (cfg : DeployCfg) (base s : Str), plainCfg cfg = true → validateOld cfg s = .accept → LandsOnHail cfg base s
 
 /-- The witness: domain `hail.is`, next = `javascript://auth.hail.is/%0aalert(1)`. -/
 def witnessCfg : DeployCfg := { domain := "hail.is".toList, basePath := none }
 def witness : Str := "javascript://auth.hail.is/%0aalert(1)".toList
 
-/-- Negation of the full statement on the witness (the REAL `validate_next_page_url` accepts it too — checked on every
-run by `harness/props/c29.py`, recorded in `known_findings.json`). -/
-theorem accepted_lands_on_hail_fails : ¬ AcceptedLandsOnHail := by
+/-- The old validator violated the property (the real old function accepted the witness too). -/
+theorem old_accepted_lands_on_hail_fails : ¬ AcceptedLandsOnHailOld := by
   intro h
   obtain ⟨sch, host, hd, _, _⟩ := h witnessCfg "auth.hail.is".toList witness (by decide) (by decide)
   have : browserDest "auth.hail.is".toList witness = .blocked "javascript".toList := by decide
   rw [this] at hd
   exact absurd hd (by simp)
-
-/-- A validator that additionally requires the scheme to be absent, `http` or `https` (candidate patch) satisfies the
-full statement. -/
-theorem patched_validator_lands_on_hail (cfg : DeployCfg) (base s : Str) (hcfg : plainCfg cfg = true)
-    (hacc : validate cfg s = .accept ∧ (pyScheme s = none ∨ pyScheme s = some sHttp ∨ pyScheme s = some sHttps)) :
-    LandsOnHail cfg base s :=
-  accepted_lands_on_hail_partial cfg base s hcfg hacc.1 hacc.2
 
 /-! Non-vacuity and boundary examples (each evaluates both models). -/
 
@@ -110,9 +127,12 @@ example : plainCfg witnessCfg = true := by decide
 example : validate witnessCfg "https://batch.hail.is/batches/1".toList = .accept := by decide
 example : browserDest "auth.hail.is".toList "https://batch.hail.is/batches/1".toList
     = .host sHttps "batch.hail.is".toList none := by decide
--- scheme-relative form, leading control characters and an embedded tab (removed by both parsers)
-example : validate witnessCfg " \x01//ci.ha\til.is?x".toList = .accept := by decide
-example : browserDest "auth.hail.is".toList " \x01//ci.ha\til.is?x".toList = .host sHttps "ci.hail.is".toList none := by decide
+-- leading control characters and an embedded tab (removed by both parsers); upper-case scheme
+example : validate witnessCfg " \x01HTTPS://ci.ha\til.is?x".toList = .accept := by decide
+example : browserDest "auth.hail.is".toList " \x01HTTPS://ci.ha\til.is?x".toList = .host sHttps "ci.hail.is".toList none := by decide
+-- the scheme-relative form would land on the host, but has no scheme: refused since the fix (accepted before)
+example : validate witnessCfg "//ci.hail.is/x".toList = .deny := by decide
+example : validateOld witnessCfg "//ci.hail.is/x".toList = .accept := by decide
 -- namespace deployment with a base path: the single host is the domain
 example : validate { domain := "internal.hail.is".toList, basePath := some "/ns1".toList }
     "http://internal.hail.is/ns1/batch/".toList = .accept := by decide
@@ -124,8 +144,10 @@ example : browserDest "auth.hail.is".toList "https:/\\evil.com".toList = .host s
 example : validate witnessCfg "/batches".toList = .deny := by decide
 example : validate witnessCfg [] = .deny := by decide
 example : validate witnessCfg "https://auth.hail.is.evil.com/".toList = .deny := by decide
--- the finding: non-http(s) schemes with an allowed netloc are accepted
-example : validate witnessCfg witness = .accept := by decide
-example : validate witnessCfg "data://monitoring.hail.is/,x".toList = .accept := by decide
+-- the repaired defect: non-http(s) schemes with an allowed netloc were accepted, and are refused now
+example : validateOld witnessCfg witness = .accept := by decide
+example : validate witnessCfg witness = .deny := by decide
+example : validateOld witnessCfg "data://monitoring.hail.is/,x".toList = .accept := by decide
+example : validate witnessCfg "data://monitoring.hail.is/,x".toList = .deny := by decide
 
 end HailVerif.C29
